@@ -389,11 +389,17 @@ def touch_cached_properties(ast_obj):
         pass
 
 
+# comparisons with the literal on the left, alone, under `and`, and in a second predicate: fetch_or_create_by_xpath
+# derives the attributes of the node it creates from them
+LITERAL_LEFT = ['cit["en"=@lang]', "cit['en'=@lang and @n='1']", "a[@k='v']['x'=@j]", "entry/cit['x'=@type]",
+                "cit['en'=@lang and 'y'=@m]", "b['1'=@n][@k='v']"]
+
+
 def cache_half(ctx, n_histories, hist_len):
     docs = [impl.Document('<r xmlns:p="urn:p" k="v"><a k="v" j="1">x<b/>y</a><p:a/><a><c k="w"/></a><!--c--><?t d?></r>'),
             impl.Document("<a><a><a/></a>text<b k='1'/></a>")]
     pool = VALID + [s for s in FIXED + REGRESSION if len(s) < 30] + \
-        ["p:a", "p:*", "q:a", "*[@p:n]", "*[@p:n='2']", "a[@q:k]", "//p:a[@p:k and @j]", "p:a/q:b", "ancestor::p:*"]
+        LITERAL_LEFT + ["p:a", "p:*", "q:a", "*[@p:n]", "*[@p:n='2']", "a[@q:k]", "//p:a[@p:k and @j]", "p:a/q:b", "ancestor::p:*"]
     for _ in range(n_histories):
         rparse.cache_clear()
         rtokenize.cache_clear()
@@ -403,6 +409,8 @@ def cache_half(ctx, n_histories, hist_len):
         for _ in range(hist_len):
             q = ctx.rng.random()
             s = ctx.rng.choice(pool) if q < .6 else (ctx.rng.choice(names) + ctx.rng.choice(["", "[1]", "/b", "/"]))
+            if q > .9:
+                s = ctx.rng.choice(LITERAL_LEFT)
             op = ctx.rng.choice(["parse", "parse", "tokenize", "xpath", "evaluate", "inspect", "create", "clear"]) \
                 if q > .02 else "clear"
             hist.append((op, s))
@@ -418,12 +426,20 @@ def cache_half(ctx, n_histories, hist_len):
                 elif op == "inspect":
                     touch_cached_properties(rparse(s))
                 elif op == "create":
-                    impl.Document("<a><b/></a>").root.fetch_or_create_by_xpath(s)
+                    # a tree without the target, so that the call has to create it (twice: create, then fetch)
+                    r0 = impl.Document("<a><b/></a>").root
+                    r0.fetch_or_create_by_xpath(s)
+                    r0.fetch_or_create_by_xpath(s)
                 else:
                     ctx.rng.choice([rparse, rtokenize]).cache_clear()
             except Exception:  # noqa: BLE001
                 pass
-        probes = [h[1] for h in hist[-6:]] + [ctx.rng.choice(pool) for _ in range(6)]
+        # what fetch_or_create_by_xpath had to create from (it reads the derived attributes of every predicate of the
+        # shared AST) is always probed, as are the last calls and a few random members of the pool
+        created = [h[1] for h in hist if h[0] == "create"]
+        ctx.rng.shuffle(created)
+        probes = [h[1] for h in hist[-6:]] + [ctx.rng.choice(pool) for _ in range(6)] + created[:8] \
+            + [ctx.rng.choice(LITERAL_LEFT)]
         for s in probes:
             cached = real_outcome(s, fresh=False)
             try:
@@ -579,6 +595,32 @@ def termination_probe(ctx, n):
     return ok
 
 
+def ambient_int_limit(ctx):
+    """the application may lower (or lift) the interpreter's limit on int <-> str conversions after delb was imported:
+    no other exception type may escape parse() under that setting either.  The limit is restored whatever happens.
+    (The model is not compared here: its limit is the one read when Gen/GenXPath.v was generated.)"""
+    if not hasattr(sys, "set_int_max_str_digits"):
+        return
+    old = sys.get_int_max_str_digits()
+    try:
+        for limit in (640, 1000, 0, old):
+            sys.set_int_max_str_digits(limit)
+            lengths = {1, 639, 640, 641, 999, 1000, 1001, 2000, old - 1, old, old + 1, old + 700}
+            if limit:
+                lengths |= {limit - 1, limit, limit + 1}
+            for k in sorted(x for x in lengths if x > 0):
+                for d in ("1", "٣"):
+                    for tmpl in ("a[%s]", "a[@k=%s]", "a[position()<%s and 1]"):
+                        s = tmpl % (d * k)
+                        r = real_outcome(s)
+                        ctx.count(1, "search/int-limit-%d/%s" % (limit, r[0] if r[0] != "crash" else "crash:" + r[1]))
+                        judge(ctx, {"expression": s if k < 60 else tmpl % ("<%d times %s>" % (k, d)), "family": "int-limit",
+                                    "ambient": "sys.set_int_max_str_digits(%d)" % limit, "digits": k, "digit": d,
+                                    "template": tmpl}, r)
+    finally:
+        sys.set_int_max_str_digits(old)
+
+
 def direct_search(ctx, n):
     """the implementation alone, at volume"""
     t0 = time.time()
@@ -612,7 +654,9 @@ def run(ctx, args):
         with open(args.replay) as f:
             rep = json.load(f)
         case = rep.get("case")
-        if case and "expression" in case:
+        if case and case.get("family") == "int-limit":
+            ambient_int_limit(ctx)
+        elif case and "expression" in case:
             check_cases(ctx, [(case.get("family", "replay"), case["expression"])])
         return ctx.finish("replay of " + args.replay, replay_open=replay_open)
     quick = ctx.tier == "quick"
@@ -640,6 +684,7 @@ def run(ctx, args):
                           replay_open=replay_open)
     check_cases(ctx, cases)
     cache_half(ctx, 40 if quick else 600, 120)
+    ambient_int_limit(ctx)
     direct_search(ctx, 40000 if quick else 1000000)
     return ctx.finish(
         rule="expressions: fixed list of boundary cases + generated token soups over the XPath vocabulary (names, axes, "
